@@ -190,6 +190,60 @@ void h_qrsolve_rank(void)
 }
 #endif
 
+/*
+ * _vnacommon_minverse on a singular matrix (n = 2): the callers that ignore
+ * the returned determinant (vnaconv_ztoyn, ytozn, ztozin) rely on "a singular
+ * matrix comes back as non-finite output, never as plausible numbers".  The
+ * factorisation is an ASSUMED CONTRACT (any L, U with an exactly zero pivot,
+ * any row order, determinant 0); proved on the real substitution code after
+ * it: the result contains a non-finite entry - in particular the output
+ * buffer is not left as it was.
+ */
+#ifdef H_MINVERSE
+static double ghost_lu[4];
+static int ghost_perm;
+double complex _vnacommon_lu(complex double *a, int *row_index, int n)
+{
+    CHECK(n == 2, "factorisation called on the matrix given");
+    for (int i = 0; i < 4; ++i)
+	a[i] = ghost_lu[i];
+    row_index[0] = ghost_perm ? 1 : 0;
+    row_index[1] = ghost_perm ? 0 : 1;
+    return 0.0;
+}
+
+void h_minverse_singular(void)
+{
+    IN_ARR(double, lu, 4);
+    IN(_Bool, perm);
+    IN(_Bool, first);
+    double complex a[4], x[4];
+    _Bool nonfinite = 0;
+
+    for (int i = 0; i < 4; ++i) {
+	ASSUME(lu[i] >= -1.0e6 && lu[i] <= 1.0e6);
+	a[i] = 1.0;
+	x[i] = 7.0;		/* what a previous frequency point might have left in the buffer */
+    }
+    if (first)
+	lu[0] = 0.0;		/* zero pivot in the first elimination step */
+    else
+	lu[3] = 0.0;		/* ... or in the last */
+    for (int i = 0; i < 4; ++i)
+	ghost_lu[i] = lu[i];
+    ghost_perm = perm;
+    (void)_vnacommon_minverse(x, a, 2);
+    REACH("minverse of a singular matrix returned");
+    for (int i = 0; i < 4; ++i) {
+	double v = creal(x[i]);
+
+	if (v != v || v - v != 0.0)
+	    nonfinite = 1;
+    }
+    CHECK(nonfinite, "the inverse of a matrix with an exactly zero pivot comes back non-finite, never as plausible numbers");
+}
+#endif
+
 #ifdef VERIF_NATIVE
 int main(void) { HARNESS(); return 0; }
 #endif
